@@ -58,13 +58,13 @@ def real_groups(tier, seed):
         # three of the six (ISA, type) pairs of the quick ISAs per run, rotating with the seed; every ISA family every run
         ts = ("float", "double")
         combos = [(isa, ts[(k + seed) % 2]) for k, isa in enumerate(core.QUICK_ISAS)]
-    sizes = [2, 5, 8, 9, 12, 33] if tier == "quick" else [1, 2, 3, 4, 5, 7, 8, 9, 12, 16, 17, 20, 33, 65]
+    sizes = [2, 5, 8, 9, 12, 33] if tier == "quick" else [1, 2, 3, 4, 5, 8, 9, 12, 17, 20, 33, 65]
     groups = []
     for isa, t in combos:
         calls = []
         for n in sizes:
             for (s, e) in VARIANTS:
-                if n > 20 and tier == "quick" and (s, e) not in ((0, 0), (2, 2)):
+                if n > 20 and (s, e) not in (((0, 0), (2, 2)) if tier == "quick" else ((0, 0), (2, 1), (2, 2))):
                     continue
                 for k in range(2 if tier == "quick" else 5):
                     calls.append("run_lureal<%s,%d,%d,%d>(%du);" % (t, n, s, e, seed * 97 + k))
